@@ -22,9 +22,9 @@ Two layers.
 
 2. **`PixCoord`** mirrors the class method by method: `__init__` (broadcast x and y; a 0-d pair
    is stored as Python scalars = shape `[]`), `isscalar`, `__len__`, `__iter__`, `__getitem__`,
-   `__add__`, `__sub__`, `__eq__` (allclose on the stacked arrays), `separation` (kept squared:
-   the model is sqrt-free), `rotate` (the rotation is the unit vector `(c, s) = (cos, sin)`),
-   `copy`, `xy`, `to_sky`/`from_sky` with the WCS pixel↔world maps as parameters.
+   `__add__`, `__sub__`, `separation` (kept squared: the model is sqrt-free), `rotate` (the rotation is the unit vector `(c, s) = (cos, sin)`),
+   `copy`, `xy`, `to_sky`/`from_sky` with the WCS pixel↔world maps as parameters.  `__eq__` is
+   not modelled: equality is not a clause of C20 (it belongs to C16).
 
 Generic over the element type: the driver runs it on `ℚ`, the theorems are for any (ordered) field.
 -/
@@ -287,9 +287,6 @@ def rows (a : NDArr α) : List (NDArr α) :=
   | [] => []
   | n :: rest => (List.range n).map fun i => ⟨rest, (a.data.drop (i * rest.prod)).take rest.prod⟩
 
-/-- `np.array([a, b])` for equal shapes. -/
-def stack (a b : NDArr α) : NDArr α := ⟨2 :: a.shape, a.data ++ b.data⟩
-
 end NP
 
 open NP
@@ -303,7 +300,7 @@ structure PixCoord (α : Type) where
   y : NDArr α
 deriving DecidableEq, Repr
 
-/-- the right operand of `+`, `-`, `==`: a `PixCoord` or any other Python object. -/
+/-- the right operand of `+`, `-`: a `PixCoord` or any other Python object. -/
 inductive Operand (α : Type)
   | pix (p : PixCoord α)
   | other
@@ -428,25 +425,6 @@ def rotate (p center : PixCoord α) (c s : α) : Except PyErr (PixCoord α) :=
             | .ok y => ctor x y
 
 end ring
-
-section order
-variable [Field α] [LinearOrder α] [IsStrictOrderedRing α]
-
-/-- `np.allclose(a, b)` (finite values): `|a - b| ≤ atol + rtol * |b|` everywhere, after
-broadcasting (`ValueError` when the shapes do not broadcast). -/
-def allclose (rtol atol : α) (a b : NDArr α) : Except PyErr Bool :=
-  match binop 0 0 (fun u v => decide (|u - v| ≤ atol + rtol * |v|)) a b with
-  | none => .error .valueError
-  | some r => .ok (r.data.all id)
-
-/-- `__eq__`: `False` for a non-`PixCoord`; else `np.allclose([self.x, self.y], [other.x, other.y])`
-with numpy's default tolerances. -/
-def eq (p : PixCoord α) (o : Operand α) : Except PyErr Bool :=
-  match o with
-  | .other => .ok false
-  | .pix q => allclose (1 / 100000) (1 / 100000000) (stack p.x p.y) (stack q.x q.y)
-
-end order
 
 /-! ### sky conversion (the WCS is a parameter) -/
 
